@@ -10,7 +10,11 @@ trace exactly 1); toqito receives the correctly rounded float image.  Per pair t
   * for full-rank pairs an interval for the Matsumoto program (checkMatsPrimal_sound / checkMatsDual_sound),
   * the exact values tr((rho-sigma)^2), tr(rho sigma), tr(rho sigma rho sigma), tr(A^H B) (hsDist_eq, trProd_eq, subFidRad_eq, hsInner_eq).
 toqito's outputs must lie in the enclosures (tolerances in ASSUMPTIONS); symmetry, unitary invariance, extreme values,
-pure-state formulas, the inequalities between the measures and the triangle inequality are evaluated on toqito's outputs."""
+pure-state formulas, the inequalities between the measures and the triangle inequality are evaluated on toqito's outputs.
+Added streams: commuting pairs against the exact classical model (class_evaluators_sound, checkClassFid_sound, matsumoto_commuting), the explicit
+`decimals` argument of the Bures functions against the rounding model (roundDec_spec), the cvxpy-expression branch of fidelity / matsumoto_fidelity
+against the certified optimum of the very program it solves, and the is_density / shape guards against the decision-logic model (guards_value_iff,
+densityGuard_spec)."""
 from __future__ import annotations
 
 import contextlib
@@ -35,16 +39,29 @@ RULE = ("pairs (and triples) of density operators rho = G diag(D) G^H from exact
         "presentation: every call receives the same values in a freshly drawn presentation per argument (C / Fortran / strided memory layout; real-valued states as "
         "float64 or, one task in four, complex128; integer-valued ones also as int64); one in three complex pairs of the kinds random / fullrank / pure / pure-mixed has "
         "one state replaced by a real one (mixed real/complex pairs, in both argument orders through the symmetry check); the arrays handed over must be untouched "
-        "after every call, and the main call of every function is repeated on the same objects and must return the same value")
+        "after every call, and the main call of every function is repeated on the same objects and must return the same value; "
+        "commuting stream: rho = U diag(p) U^H, sigma = U diag(q) U^H with rational spectra (zeros, degenerate eigenvalues, identical, disjoint, nearly equal) and U the identity, a "
+        "phased permutation or a rational unitary, each function compared with the exact classical value computed by the Lean model (non-trivial = U is a genuine rotation and T, F are "
+        "1e-2 away from 0 and 1); one pair in three also calls bures_distance / bures_angle with explicit decimals (keyword or positional) from {0,1,2,3,4,6,8,10}; one task in seven of "
+        "dimension <= 4 hands one state to fidelity / matsumoto_fidelity as a cvxpy expression; guard stream: arguments built from exact spectral data that satisfy or violate is_density "
+        "by a stated margin (eigenvalue -1/4, -2e-8 rejected, -5e-9 accepted; trace 3/2, 1 +- 2e-5 rejected, 1 + 5e-6 accepted; non-Hermitian by 0.25 rejected, by 1e-10 accepted; non-square; "
+        "shapes that differ), in both positions, for the eight two-argument measures")
 ASSUMPTIONS = [
-    "cited, not proved: the optimum of Watrous' semidefinite program equals the root fidelity ||sqrt(rho) sqrt(sigma)||_1 = tr sqrt(sqrt(rho) sigma sqrt(rho)) that toqito documents; "
-    "the max/min forms of the trace norm are attained and equal the sum of singular values; the Hermitian-restricted program equals tr(rho # sigma) for invertible states; "
-    "Fuchs-van de Graaf, sub-fidelity <= F^2; Bures distance/angle are the documented monotone functions sqrt(2(1-F)), arccos(sqrt(F)) of toqito's (root) fidelity F",
+    "proved in Lean (formerly cited): the optimum of Watrous' semidefinite program equals the root fidelity tr sqrt(sqrt(rho) sigma sqrt(rho)) = ||sqrt(rho) sqrt(sigma)||_1 that toqito "
+    "documents (fid_eq_docFidelity); the max/min forms of the trace norm are attained and equal the sum of |eigenvalues| (traceNorm_eq_sum_abs_eigenvalues); Fuchs-van de Graaf; "
+    "sub-fidelity <= F^2; Bures distance/angle are the documented monotone functions sqrt(2(1-F)), arccos(sqrt(F)) of toqito's (root) fidelity F (bures_enclosure). "
+    "the Hermitian-restricted program equals tr(rho # sigma) for invertible rho (matsumoto_eq_trace_geoMean, Cree-Sikora). Nothing is cited any more",
     "the fidelity enclosure is certified for the exact rational pair; toqito computes with its float rounding (entries moved by <= 2^-53 relative), which moves the fidelity by less than the tolerance",
     "tolerances: 1e-8 for trace_norm / trace_distance / helstrom_holevo (LAPACK svd), 1e-9*scale for hilbert_schmidt / sub_fidelity (direct float algebra; sub_fidelity through its squared defining relation), "
     "fidelity 1e-8 when both states have smallest eigenvalue >= 1e-3, otherwise 5e-7 (square roots of numerically zero eigenvalues of size 1e-16 are 1e-8 each); "
     "matsumoto_fidelity 1e-7; Bures quantities: the documented function applied to the fidelity enclosure widened by that tolerance and clipped to [0, 1]; relations between outputs: 1e-7",
     "fidelity_of_separability is solved by picos/cvxopt: 1e-4",
+    "commuting stream: the exact values are those of the rational pair; toqito receives its correctly rounded float image (same tolerances as above); "
+    "explicit decimals: toqito's own fidelity value F_t on the same values is taken as the exact rational it is, cases with F_t * 10^d within 1e-3 of a rounding boundary are skipped, "
+    "then d^2/2 and cos^2(angle) must equal 1 - round(F_t, d) and round(F_t, d) of the Lean model up to 1e-12; "
+    "cvxpy-expression branch (solved by cvxpy's default solver): 1e-3; a solver failure there is counted, not a violation",
+    "guards: the property only demands rejection (a ValueError); which of the two error messages appears when both the shape and the density check fail is compared with the model "
+    "and differences are counted (guard-category-differs), not reported as violations; inputs accepted only thanks to is_density's tolerances need not give a value",
 ]
 
 ETA_BITS = 30      # contractions are shrunk by 1 - 2^-30
@@ -636,6 +653,38 @@ def _finite(x):
     except Exception:  # noqa: BLE001
         return False
 
+TAU_CVX = 1e-3   # default cvxpy solver (SCS / CLARABEL at default accuracy)
+
+
+def check_cvx_branch(T, which, af, bf, fcert, mcert, base, kind, n, res):
+    """fidelity / matsumoto_fidelity with one argument given as a cvxpy expression (cvxpy.bmat of constants): the code then solves the
+    semidefinite program; the value must lie in the certified enclosure of that program's optimum"""
+    import cvxpy
+
+    def expr(m):
+        return cvxpy.bmat([[cvxpy.Constant(complex(m[i, j]) if np.iscomplexobj(m) else float(m[i, j])) for j in range(m.shape[1])] for i in range(m.shape[0])])
+    for fn, (lo, hi) in (("fidelity", fcert), ("matsumoto_fidelity", mcert)):
+        if lo is None or hi is None:
+            continue
+        args = (expr(af), bf) if which == "a" else (af, expr(bf))
+        try:
+            with contextlib.redirect_stdout(io.StringIO()), warnings.catch_warnings():
+                warnings.simplefilter("ignore")
+                v = T[fn](*args)
+            st = "ok"
+        except cvxpy.error.SolverError as e:
+            res.count("solver-numerical-failure/cvxpy-branch")
+            continue
+        except Exception as e:  # noqa: BLE001
+            st, v = "raise", f"{type(e).__name__}: {str(e)[:200]}"
+        desc = dict(base, fn=fn, form="cvxpy-expression:" + which)
+        res.case(desc, True, f"{fn}/cvxpy-expression/{kind}")
+        if st != "ok" or v is None or not _finite(v):
+            res.violation(f"{fn} with a cvxpy expression as argument {which} gives {v!r} on a valid pair ({kind}, dim {n})", {"function": fn, "args": desc, "impl": repr(v), "form": "cvxpy-expression"})
+        elif not (lo - TAU_CVX <= float(v) <= hi + TAU_CVX):
+            res.violation(f"{fn} with a cvxpy expression as argument {which} = {float(v):.8f} outside the certified enclosure [{lo:.8f}, {hi:.8f}] of the program's optimum ({kind}, dim {n})",
+                          {"function": fn, "args": desc, "impl": float(v), "certified": [lo, hi], "tau": TAU_CVX, "form": "cvxpy-expression", "theorem": "checkFidPrimalCong_sound / checkFidDual_sound / checkMatsPrimal_sound / checkMatsDual_sound"})
+
 
 def work_pair(task, res: Result):
     warnings.filterwarnings("ignore")
@@ -750,6 +799,14 @@ def work_pair(task, res: Result):
                 viol(fn, f"hilbert_schmidt = {v:.10f}, documented tr((rho-sigma)^2) = {float(hs):.10f} ({kind}, dim {n})", impl=v, exact=float(hs), lam_max_sq=lam2, theorem="hsDist_eq / hsDist_eq_sum_sq")
         if good:
             ok[fn] = v
+    # ---- explicit `decimals` of the Bures functions against the rounding model, on toqito's own fidelity value
+    if task.get("decs") and "fidelity" in ok:
+        prng = call_rng(pres, "decimals")
+        dargs = [present_nd(prng, af), present_nd(prng, bf)]
+        check_bures_decimals(T, drv, dargs, ok["fidelity"], task["decs"], viol, res.count, as_keyword=bool(n % 2))
+    # ---- cvxpy-expression branch of fidelity / matsumoto_fidelity: toqito solves Watrous' program itself (the program `fid` is defined by)
+    if task.get("cvx"):
+        check_cvx_branch(T, task["cvx"], af, bf, (flo, fhi), (mlo, mhi) if full else (None, None), base, kind, n, res)
     # ---- relations between toqito's outputs
     Tt, Ft = ok.get("trace_distance"), ok.get("fidelity")
 
@@ -951,6 +1008,304 @@ def stream_malformed(ctx):
 
 
 # ------------------------------------------------------------------------------------------------
+# commuting pairs against the exact classical model; Bures rounding; argument guards
+
+
+def rat_json(x):
+    x = Fraction(x)
+    return [x.numerator, x.denominator]
+
+
+def sqrt_bounds(x: Fraction, bits=64):
+    """rationals lo <= sqrt(x) <= hi, hi - lo <= 2^-bits (untrusted: the Lean checker squares them)"""
+    a, b = x.numerator, x.denominator
+    N = (a * b) << (2 * bits)
+    r = math.isqrt(N)
+    den = b << bits
+    lo = Fraction(r, den)
+    return lo, (lo if r * r == N else Fraction(r + 1, den))
+
+
+def rand_spectrum(rng, n, zeros):
+    while True:
+        w = rng.integers(0 if zeros else 1, 9, size=n)
+        if w.sum() > 0 and (zeros or np.all(w > 0)):
+            return [Fraction(int(x), int(w.sum())) for x in w]
+
+
+def gen_spectra(rng, n, kind):
+    if kind == "generic":
+        return rand_spectrum(rng, n, True), rand_spectrum(rng, n, True)
+    if kind == "fullrank":
+        return rand_spectrum(rng, n, False), rand_spectrum(rng, n, False)
+    if kind == "identical":
+        p = rand_spectrum(rng, n, True)
+        return p, list(p)
+    if kind == "disjoint":
+        cut = int(rng.integers(1, n))
+        perm = rng.permutation(n).tolist()
+        a, b = rand_spectrum(rng, cut, False), rand_spectrum(rng, n - cut, False)
+        p, q = [Fraction(0)] * n, [Fraction(0)] * n
+        for k, i in enumerate(perm[:cut]):
+            p[i] = a[k]
+        for k, i in enumerate(perm[cut:]):
+            q[i] = b[k]
+        return p, q
+    if kind == "near":
+        p, t = rand_spectrum(rng, n, False), rand_spectrum(rng, n, True)
+        eps = Fraction(1, 1 << int(rng.choice([6, 12, 20])))
+        return p, [(1 - eps) * x + eps * y for x, y in zip(p, t)]
+    raise ValueError(kind)
+
+
+def spectral_matrix(Uq: QM, d):
+    """U diag(d) U^H exactly"""
+    return Uq @ QM.diag(d) @ Uq.H()
+
+
+def _frac_cell(x: Fraction, d: int):
+    """distance of x * 10^d from the nearest half-integer (rounding boundary)"""
+    y = x * 10 ** d
+    f = y - math.floor(y)
+    return abs(f - Fraction(1, 2))
+
+
+DECS = [0, 1, 2, 3, 4, 6, 8, 10]
+
+
+def check_bures_decimals(T, drv, args, f_t, decs, report, count, pres_desc=None, as_keyword=True):
+    """bures_distance / bures_angle with an explicit `decimals`: the squared distance must be 2 (1 - round(F_t, d)) and cos^2 of the angle
+    round(F_t, d), with F_t toqito's own fidelity on the same values (an exact rational) and round = the Lean model roundDec"""
+    ft = Fraction(float(f_t))
+    for d in decs:
+        if _frac_cell(ft, d) < Fraction(1, 1000):
+            count("bures-decimals/skipped-near-rounding-boundary")
+            continue
+        r = drv.ask("c13_round", {"lo": rat_json(ft), "hi": rat_json(ft), "d": int(d)})
+        if r.get("r") is None:
+            raise RuntimeError("c13_round: no value for a point enclosure")
+        rr = fraction(r["r"])
+        for fn in ("bures_distance", "bures_angle"):
+            st, v = _call(T[fn], *args, decimals=int(d)) if as_keyword else _call(T[fn], *(list(args) + [int(d)]))
+            count(f"bures-decimals/{fn}/d{d}")
+            if st != "ok" or not _finite(v):
+                if rr <= 1:
+                    report(fn, f"{fn}(rho, sigma, decimals={d}) gives {v!r} on a valid pair (fidelity {float(f_t)!r})", impl=repr(v), decimals=int(d), check="decimals")
+                continue
+            v = float(np.real(v))
+            got = v * v / 2 if fn == "bures_distance" else math.cos(v) ** 2
+            want = float(1 - rr) if fn == "bures_distance" else float(rr)
+            if abs(got - want) > 1e-12:
+                report(fn, f"{fn}(rho, sigma, decimals={d}) = {v!r}: {'1 - d^2/2' if fn == 'bures_distance' else 'cos^2'} gives {1 - got if fn == 'bures_distance' else got!r}, the model round(F, {d}) = {float(rr)!r} for F = {float(f_t)!r}",
+                       impl=v, model=[rr.numerator, rr.denominator], fidelity=float(f_t), decimals=int(d), check="decimals", theorem="roundDec_spec / roundDecEncl_sound / bures_enclosure")
+
+
+def commuting_case(ctx_like, drv, T, n, p, q, Uq: QM, pres, decs, kind, ulabel):
+    """one commuting pair rho = U diag(p) U^H, sigma = U diag(q) U^H against the exact classical model (class_evaluators_sound, checkClassFid_sound)"""
+    rho, sig = spectral_matrix(Uq, p), spectral_matrix(Uq, q)
+    af, bf = rho.to_float(), sig.to_float()
+    lohi = [sqrt_bounds(x * y) for x, y in zip(p, q)]
+    m = drv.ask("c13_classical", {"n": n, "p": [rat_json(x) for x in p], "q": [rat_json(x) for x in q],
+                                  "slo": [rat_json(a) for a, _ in lohi], "shi": [rat_json(b) for _, b in lohi]})
+    if not m.get("prob") or m.get("flo") is None or m.get("fhi") is None:
+        raise RuntimeError(f"c13_classical rejects a harness-made instance: {m}")
+    td, hs, tp, rad, flo, fhi = (fraction(m[k]) for k in ("td", "hs", "trprod", "subfidrad", "flo", "fhi"))
+    full = min(p) > 0 and min(q) > 0
+    tol_f = TAU_F if (full and min(min(p), min(q)) >= Fraction(1, 1000)) else 5e-7
+    base = {"stream": "commuting", "kind": kind, "n": n, "p": [str(x) for x in p], "q": [str(x) for x in q], "U": Uq.key(), "ulabel": ulabel, "pres": pres}
+    nontriv = ulabel == "rotated" and Fraction(1, 50) <= td <= 1 - Fraction(1, 50) and Fraction(1, 100) <= flo and fhi <= 1 - Fraction(1, 100)
+
+    def viol(fn, what, **info):
+        ctx_like.violation(what, dict({"function": fn, "args": base}, **info))
+
+    want = {"trace_distance": (float(td), TAU_T), "trace_norm": (float(2 * td), TAU_T), "helstrom_holevo": (float(Fraction(1, 2) + td / 2), TAU_T)}
+    f_t = None
+    for fn in FUNCS:
+        if fn == "matsumoto_fidelity" and not full:
+            continue
+        prng = call_rng(pres, "comm", fn)
+        args = [present_nd(prng, af - bf)] if fn == "trace_norm" else [present_nd(prng, af), present_nd(prng, bf)]
+        guard = Pure(*args)
+        st, v = _call(T[fn], *args)
+        ctx_like.case(dict(base, fn=fn), nontriv, f"commuting/{fn}/{kind}/{ulabel}")
+        if guard.modified() is not None:
+            viol(fn, f"{fn}: caller's arguments were modified ({guard.modified()})", modified=guard.modified(), presentation=describe(args), check="purity")
+            continue
+        if st != "ok" or not _finite(v):
+            viol(fn, f"{fn} gives {v!r} on a valid commuting pair of density operators (dim {n})", impl=repr(v))
+            continue
+        v = float(np.real(v))
+        if fn in want:
+            w, tol = want[fn]
+            if abs(v - w) > tol:
+                viol(fn, f"{fn} = {v:.12f}, exact value for the commuting pair {w:.12f} (dim {n}, {kind})", impl=v, model=w, tau=tol, theorem="class_evaluators_sound / traceDist_commuting")
+        elif fn == "fidelity":
+            if not (float(flo) - tol_f <= v <= float(fhi) + tol_f):
+                viol(fn, f"fidelity = {v:.12f} outside the exact classical value [{float(flo):.12f}, {float(fhi):.12f}] = sum sqrt(p_i q_i) (dim {n}, {kind})", impl=v, certified=[float(flo), float(fhi)], tau=tol_f, theorem="checkClassFid_sound / fid_commuting")
+            else:
+                f_t = v
+                if decs:
+                    check_bures_decimals(T, drv, args, v, decs, viol, ctx_like.count, as_keyword=bool(n % 2))
+        elif fn in ("bures_distance", "bures_angle"):
+            f_lo, f_hi = max(0.0, float(flo) - tol_f - 1e-10), min(1.0, float(fhi) + tol_f + 1e-10)
+            lo, hi = (math.sqrt(2 * (1 - f_hi)) - 1e-9, math.sqrt(2 * (1 - f_lo)) + 1e-9) if fn == "bures_distance" else (math.acos(math.sqrt(f_hi)) - 1e-9, math.acos(math.sqrt(f_lo)) + 1e-9)
+            if not (lo <= v <= hi):
+                viol(fn, f"{fn} = {v:.10f} outside [{lo:.10f}, {hi:.10f}], the documented function of the exact classical fidelity (dim {n}, {kind})", impl=v, certified=[lo, hi], theorem="bures_enclosure / checkClassFid_sound")
+        elif fn == "sub_fidelity":
+            d = v - float(tp)
+            if not (d >= -1e-9 and abs(d * d - float(rad)) <= 1e-9):
+                viol(fn, f"sub_fidelity = {v:.12f}, exact value for the commuting pair {float(tp) + math.sqrt(float(rad)):.12f} (dim {n}, {kind})", impl=v, trprod=float(tp), radicand=float(rad), theorem="class_evaluators_sound")
+        elif fn == "matsumoto_fidelity":
+            if not (float(flo) - TAU_M <= v <= float(fhi) + TAU_M):
+                viol(fn, f"matsumoto_fidelity = {v:.12f} outside the exact classical value [{float(flo):.12f}, {float(fhi):.12f}] (dim {n}, {kind})", impl=v, certified=[float(flo), float(fhi)], tau=TAU_M, theorem="checkClassFid_sound_matsumoto / matsumoto_commuting")
+        elif fn == "hilbert_schmidt":
+            if abs(v - float(hs)) > 1e-9 * max(1.0, float(hs)):
+                hf = (af - bf + (af - bf).conj().T) / 2
+                lam2 = float(np.max(np.abs(np.linalg.eigvalsh(hf))) ** 2)
+                viol(fn, f"hilbert_schmidt = {v:.10f}, documented tr((rho-sigma)^2) = {float(hs):.10f} (commuting {kind}, dim {n})", impl=v, exact=float(hs), lam_max_sq=lam2, theorem="class_evaluators_sound / hsDist_eq_sum_sq")
+    return f_t
+
+
+COMM_KINDS = ["generic", "fullrank", "generic", "near", "identical", "disjoint", "fullrank"]
+
+
+def gen_commuting(rng, count):
+    out = []
+    # corpus: docstring example of sub_fidelity, a degenerate first argument (a commuting-states shortcut through eigh of rho alone fails here)
+    out.append({"n": 2, "p": [Fraction(3, 4), Fraction(1, 4)], "q": [Fraction(1, 8), Fraction(7, 8)], "U": QM.eye(2), "kind": "corpus", "ulabel": "identity", "decs": [10, 3]})
+    for i in range(count):
+        n = int(rng.integers(2, 7))
+        kind = COMM_KINDS[i % len(COMM_KINDS)]
+        p, q = gen_spectra(rng, n, kind)
+        which = int(rng.integers(4))
+        cplx = bool(rng.integers(2))
+        if which == 0:
+            Uq, ulabel = QM.eye(n), "identity"
+        elif which == 1:
+            Uq, ulabel = rational_unitary(rng, n, cplx, nrot=0), "permutation"
+        else:
+            Uq, ulabel = rational_unitary(rng, n, cplx), "rotated"
+        if rng.integers(3) == 0 and n >= 3:
+            p = list(p)
+            p[1] = p[0] = (p[0] + p[1]) / 2     # degenerate eigenvalue of rho
+        decs = sorted({int(x) for x in rng.choice(DECS, size=2)}) if i % 2 == 0 else []
+        out.append({"n": n, "p": p, "q": q, "U": Uq, "kind": kind, "ulabel": ulabel, "decs": decs})
+    return out
+
+
+def stream_commuting(ctx, prs, tasks=None):
+    T = _toqito()
+    drv = ctx.lean()
+    tasks = tasks if tasks is not None else gen_commuting(ctx.rng, 40 if ctx.tier == "quick" else 400)
+    for t in tasks:
+        pres = t.get("pres", int(prs.integers(1, 2 ** 31)) if prs is not None else None)
+        commuting_case(ctx, drv, T, t["n"], t["p"], t["q"], t["U"], pres, t["decs"], t["kind"], t["ulabel"])
+
+
+SHAPE_FIRST = ["fidelity", "sub_fidelity", "matsumoto_fidelity", "bures_distance", "bures_angle"]
+DENSITY_FIRST = ["trace_distance", "helstrom_holevo", "hilbert_schmidt"]
+
+
+def guard_arg(rng, n, spec, cplx):
+    """(float matrix, model description {'herm','mineig','tr'}, exact?) of an argument built from exact spectral data with margins"""
+    Uq = rational_unitary(rng, n, cplx)
+    d = rand_spectrum(rng, n, False)
+    herm, exact = True, False
+    tr_im = Fraction(0)
+    add = None
+    if spec == "exact":
+        exact = True
+    elif spec == "neg-big":
+        d = [Fraction(5, 4), Fraction(-1, 4)] + [Fraction(0)] * (n - 2)
+    elif spec in ("neg-margin", "neg-tol"):
+        e = Fraction(-1, 50000000) if spec == "neg-margin" else Fraction(-1, 200000000)     # -2e-8 rejected, -5e-9 accepted (atol 1e-8)
+        d = [e] + [x * (1 - e) / sum(d[1:]) for x in d[1:]]
+    elif spec == "trace-big":
+        d = [x * Fraction(3, 2) for x in d]
+    elif spec in ("trace-margin+", "trace-margin-", "trace-tol"):
+        f = {"trace-margin+": 1 + Fraction(2, 100000), "trace-margin-": 1 - Fraction(2, 100000), "trace-tol": 1 + Fraction(5, 1000000)}[spec]
+        d = [x * f for x in d]
+    elif spec == "nonherm-big":
+        herm, add = False, np.triu(np.ones((n, n)), 1) * 0.25
+    elif spec == "nonherm-tol":
+        add = np.zeros((n, n))
+        add[0, 1] = 1e-10
+    elif spec == "imag-diagonal-tol":
+        add = np.zeros((n, n), dtype=complex)
+        add[0, 0] = 2e-9j
+        tr_im = Fraction(2, 10 ** 9)
+    elif spec == "nonsquare":
+        herm = False
+    M = spectral_matrix(Uq, d).to_float()
+    if add is not None:
+        M = M + add
+    if spec == "nonsquare":
+        M = np.hstack([np.real(M) if not np.iscomplexobj(M) else M, np.zeros((n, 1))])
+    return M, {"herm": herm, "mineig": rat_json(min(d)), "tr": [rat_json(sum(d)), rat_json(tr_im)]}, exact
+
+
+GUARD_SPECS = ["exact", "neg-big", "neg-margin", "neg-tol", "trace-big", "trace-margin+", "trace-margin-", "trace-tol", "nonherm-big", "nonherm-tol", "imag-diagonal-tol", "nonsquare"]
+
+
+def _category(st, v):
+    if st == "ok":
+        return "value" if _finite(v) else "nonfinite"
+    if v.startswith("ValueError"):
+        if "InvalidDim" in v or "broadcast" in v:
+            return "invalidDim"
+        if "only defined for density" in v:
+            return "notDensity"
+        return "ValueError-other"
+    return "raises-other"
+
+
+def stream_guards(ctx, prs=None):
+    """the is_density / shape guards of the eight two-argument measures against the decision-logic model (guards_value_iff, densityGuard_spec):
+    a verdict 'rejected' must be a ValueError; exact density operators of equal shape must give a value"""
+    T = _toqito()
+    drv = ctx.lean()
+    rng = ctx.rng
+    rounds = 2 if ctx.tier == "quick" else 12
+    for rd in range(rounds):
+        for spec in GUARD_SPECS:
+            n = int(rng.integers(2, 5))
+            cplx = bool(rng.integers(2))
+            mism = rd % 2 == 1 and spec in ("exact", "neg-big", "trace-big", "trace-tol")
+            A, dA, exA = guard_arg(rng, n, spec, cplx)
+            B, dB, exB = guard_arg(rng, n + 1 if mism else n, "exact", cplx)
+            if spec == "nonsquare":
+                B = np.hstack([B, np.zeros((n, 1))])     # same (non-square) shape: the shape check passes, is_density must fail
+                dB = dict(dB, herm=False)
+            for order in (0, 1):
+                args, da, db = ((A, B), dA, dB) if order == 0 else ((B, A), dB, dA)
+                same = args[0].shape == args[1].shape
+                for fam, fns in (("shape", SHAPE_FIRST), ("density", DENSITY_FIRST)):
+                    m = drv.ask("c13_guard", {"family": fam, "same": bool(same), "a": da, "b": db})
+                    out = m["outcome"]
+                    for fn in fns:
+                        if fn == "matsumoto_fidelity" and out == "value" and not (exA and exB):
+                            continue   # Matsumoto is only specified for full-rank states
+                        st, v = _call(T[fn], *args)
+                        cat = _category(st, v)
+                        desc = {"fn": fn, "stream": "guards", "spec": spec, "position": order, "n": n, "cplx": cplx, "mismatch": bool(mism), "A": A, "B": B}
+                        ctx.case(desc, True, f"guard/{fn}/{spec}{'/shape-mismatch' if mism else ''}/{out}")
+                        if out != "value":
+                            if not (st == "raise" and v.startswith("ValueError")):
+                                ctx.violation(f"{fn} accepts a non-density argument or a pair of different shapes ({spec}, position {order}{', shapes differ' if mism else ''}): returned {v!r}; the guard model says {out}",
+                                              {"function": fn, "args": desc, "impl": repr(v), "model": out, "theorem": "guards_value_iff / densityGuard_spec"})
+                            elif cat != out:
+                                ctx.count(f"guard-category-differs/{fn}/{out}->{cat}")
+                        elif exA and exB:
+                            if cat != "value":
+                                ctx.violation(f"{fn} rejects a valid pair of density operators: {v!r}", {"function": fn, "args": desc, "impl": repr(v), "model": out, "theorem": "guards_value_iff / densityGuard_spec"})
+                        elif cat in ("invalidDim", "notDensity"):
+                            ctx.violation(f"{fn} rejects an argument that is a density operator within the documented tolerances of is_density ({spec}): {v!r}",
+                                          {"function": fn, "args": desc, "impl": repr(v), "model": out, "theorem": "densityGuard_spec"})
+                        elif cat != "value":
+                            ctx.count(f"guard/tolerated-input/{fn}/{cat}")
+
+
+# ------------------------------------------------------------------------------------------------
 
 
 def _is_hs_spectral(info):
@@ -1000,6 +1355,11 @@ def gen_tasks(rng, n_pairs, prs=None):
     if prs is not None:
         for t in tasks:
             t["pres"] = int(prs.integers(1, 2 ** 31))
+        for i, t in enumerate(tasks):
+            if i % 3 == 0:
+                t["decs"] = sorted({int(x) for x in prs.choice(DECS, size=2)})
+            if i % 7 == 3 and t["a"].n <= 4:
+                t["cvx"] = "a" if int(prs.integers(2)) else "b"
     return tasks
 
 
@@ -1030,6 +1390,8 @@ def run(ctx, model_ok=True):
     stream_hs_inner(ctx, prs)
     stream_rect_trace_norm(ctx, prs)
     stream_malformed(ctx)
+    prs2 = prs.spawn(1)[0]   # the streams added later draw from their own child generators, so the older streams see the same draws as before
+    rng2 = rng.spawn(1)[0]
     tasks = gen_tasks(rng, 150 if quick else 1500, prs)
     extra = {}
     run_pool_collect(ctx, work_pair, tasks, extra)
@@ -1046,7 +1408,13 @@ def run(ctx, model_ok=True):
     for t in fos:
         t["pres"] = int(prs.integers(1, 2 ** 31))
     run_pool(ctx, work_fos, fos)
-    ctx.extra["tolerances"] = {"trace_norm": TAU_T, "fidelity": TAU_F, "matsumoto": TAU_M, "relations": SLACK, "fidelity_of_separability": 1e-4}
+    ctx.rng, keep = rng2, ctx.rng
+    try:
+        stream_commuting(ctx, prs2)
+        stream_guards(ctx, prs2)
+    finally:
+        ctx.rng = keep
+    ctx.extra["tolerances"] = {"trace_norm": TAU_T, "fidelity": TAU_F, "matsumoto": TAU_M, "relations": SLACK, "fidelity_of_separability": 1e-4, "cvxpy_branch": TAU_CVX, "bures_decimals": 1e-12}
     ctx.extra["max_fidelity_excess_outside_enclosure_within_tolerance"] = extra.get("fid_err", 0.0)
     ctx.extra["certified_interval_width_bound"] = WIDTH_OK
 
@@ -1070,6 +1438,10 @@ def replay(ctx, rec):
     res = Result()
     if "a" in a and "b" in a and isinstance(a["a"], dict):
         t = {"kind": a.get("kind", "random"), "a": state_from_key(a["a"]), "b": state_from_key(a["b"]), "cplx": a.get("cplx", True), "as_complex": a.get("as_complex", False), "Q": None, "pres": a.get("pres")}
+        if rec.get("check") == "decimals":
+            t["decs"] = [int(rec["decimals"])] if "decimals" in rec else list(DECS)
+        if str(rec.get("form", "")).startswith("cvxpy") or str(a.get("form", "")).startswith("cvxpy"):
+            t["cvx"] = str(a.get("form", "cvxpy-expression:a"))[-1]
         u = rec.get("unitary")
         if u:
             sh = (t["a"].n, t["a"].n)
@@ -1078,6 +1450,15 @@ def replay(ctx, rec):
         work_pair(t, res)
     elif "states" in a:
         work_triple({"states": [state_from_key(k) for k in a["states"]], "cplx": a.get("cplx", True), "pres": a.get("pres")}, res)
+    elif a.get("stream") == "commuting":
+        nn = int(a["n"])
+        Uq = QM(np.array([Fraction(x) for x in a["U"][0]], dtype=object).reshape(nn, nn), np.array([Fraction(x) for x in a["U"][1]], dtype=object).reshape(nn, nn))
+        decs = [int(rec["decimals"])] if "decimals" in rec else list(DECS)
+        commuting_case(res, ctx.lean(), _toqito(), nn, [Fraction(x) for x in a["p"]], [Fraction(x) for x in a["q"]], Uq, a.get("pres"), decs, a.get("kind", "generic"), a.get("ulabel", "rotated"))
+    elif a.get("stream") == "guards":
+        ctx.note("replay: record of the guard stream; re-running it")
+        stream_guards(ctx)
+        return
     elif a.get("fn") == "fidelity_of_separability" and "dims" in a:
         work_fos({"a": a["a"], "b": a["b"], "dims": a["dims"], "k": a["k"], "pres": a.get("pres")}, res)
     else:
